@@ -1,0 +1,71 @@
+//go:build verif
+
+// Contracts for package model, read by /verif/govc. Comment-only; never compiled into the library.
+package model
+
+// ---------------------------------------------------------------------------------------------
+// Count/length driven loops (C03: no panic, no over-read, termination)
+// ---------------------------------------------------------------------------------------------
+
+//@ func (*TerminalParamDetails).parse
+//@   requires hook: t.ParamParseBeforeFunc == nil
+//@   loop 1 invariant idx: 0 <= index && index <= len(body)
+//@   loop 1 invariant other: t.OtherContent != nil
+//@   loop 1 invariant hook: t.ParamParseBeforeFunc == nil
+//@   loop 1 decreases len(body) - index
+
+//@ func (*TerminalParamDetails).parseParam
+//@   requires hook: t.ParamParseBeforeFunc == nil
+//@   requires other: t.OtherContent != nil
+//@   requires len: len(content) == int(paramLen)
+
+//@ func (*P0x8103).Parse
+//@   requires hook: p.TerminalParamDetails.ParamParseBeforeFunc == nil
+
+//@ func (*T0x0104).Parse
+//@   requires hook: t.TerminalParamDetails.ParamParseBeforeFunc == nil
+
+//@ func (*T0x0104).parse
+//@   requires hook: t.TerminalParamDetails.ParamParseBeforeFunc == nil
+
+//@ func (*T0x0200AdditionDetails).parse
+//@   requires hook: a.CustomAdditionContentFunc == nil
+//@   loop 1 invariant idx: 0 <= index && index <= len(body)
+//@   loop 1 invariant map: a.Additions != nil
+//@   loop 1 invariant hook: a.CustomAdditionContentFunc == nil
+//@   loop 1 decreases len(body) - index
+
+//@ func (*T0x0200AdditionDetails).decode
+//@   requires hook: a.CustomAdditionContentFunc == nil
+
+//@ func (*T0x0200).Parse
+//@   requires hook: t.T0x0200AdditionDetails.CustomAdditionContentFunc == nil
+
+//@ func (*T0x0704).Parse
+//@   loop 1 invariant start: 3 <= start && start <= len(body)
+//@   loop 1 invariant i: 0 <= i
+//@   loop 1 decreases int(t.Num) - i
+
+//@ func (*T0x1205).Parse
+//@   loop 1 invariant pos: 0 <= i && start == 6 + 28*i && end == start + 28
+//@   loop 1 decreases int(t.AudioVideoResourceTotal) - i
+
+//@ func (*T0x1210).Parse
+//@   loop 1 invariant pos: 0 <= i && 0 <= start && start <= len(body)
+//@   loop 1 decreases int(t.AttachCount) - i
+
+//@ func (*T0x0200AdditionExtension0x66).Parse
+//@   loop 1 invariant i: 0 <= i
+//@   loop 1 decreases int(t.AlarmOrEventCount) - i
+
+//@ func (*P0x8003).Parse
+//@   loop 1 decreases int(p.AgainPackageCount) - i
+
+//@ func (*P0x8800).Parse
+//@   loop 1 decreases int(p.AgainPackageCount) - i
+
+//@ func (*P0x9212).Parse
+//@   loop 1 decreases int(p.RetransmitPacketNumber) - i
+
+//@ func (*T0x0805).Parse
+//@   loop 1 decreases int(t.MultimediaIDNumber) - i
